@@ -34,27 +34,31 @@ def _known(d, res):
     return None
 
 
-def code_card(mn, ps):
-    """the real conversion of one elementary card: [(T4 keyword, side, params)] or ('error', class)"""
+def code_card(mn, ps, tr=None):
+    """the real conversion of one card (optionally carrying transformation `tr` = 12 numbers):
+    [(T4 keyword, side, params, transform)]"""
     from t4_geom_convert.Kernel.FileHandlers.Parser.ParseMCNPSurface import to_surfaces_mcnp
     from t4_geom_convert.Kernel.Surface.ConversionSurfaceMCNPToT4 import convert_mcnp_surface
-    val = to_surfaces_mcnp(1, ('', None, mn, [float(x) for x in ps]), {})
+    if tr is None:
+        val = to_surfaces_mcnp(1, ('', None, mn, [float(x) for x in ps]), {})
+    else:
+        val = to_surfaces_mcnp(1, ('', '7', mn, [float(x) for x in ps]), {7: [float(x) for x in tr]})
     coll = convert_mcnp_surface(1, val)
     return [(s.type_surface.name, int(side), [float(x) for x in s.param_surface], s.transform) for s, side in coll]
 
 
-def compare_card(ctx, cmd, mn, ps, stream, extra_dist=None):
+def compare_card(ctx, cmd, mn, ps, stream, extra_dist=None, tr=None):
     """one card through the real conversion and through the Lean model (driver command `cmd`)"""
     import struct
-    key = h((mn, tuple(ps)))
+    key = h((mn, tuple(ps), tuple(tr or ())))
     try:
-        code = code_card(mn, ps)
+        code = code_card(mn, ps, tr)
     except Exception as e:  # noqa
         code = ('error', type(e).__name__)
-    resp = ctx['drv'].ask('%s %s %s' % (cmd, mn, ' '.join(repr(float(x)) for x in ps)))
+    resp = ctx['drv'].ask('%s %s %s' % (cmd, mn, ' '.join(repr(float(x)) for x in list(tr or []) + list(ps))))
     fails = []
     sig = {'stream': stream, 'mnemonic': mn, 'arity': len(ps)}
-    replay = {'mnemonic': mn, 'params': ps, 'cmd': cmd}
+    replay = {'mnemonic': mn, 'params': ps, 'cmd': cmd, 'tr': tr}
 
     def dis(msg):
         fails.append(fail('disagreement', 'card %s %r: %s' % (mn, ps, msg), sig, replay))
@@ -129,9 +133,9 @@ def replay(payload, ctx):
     p = payload.get('payload') or {}
     if 'mnemonic' in p:
         try:
-            code = repr(code_card(p['mnemonic'], p['params']))
+            code = repr(code_card(p['mnemonic'], p['params'], p.get('tr')))
         except Exception as e:  # noqa
             code = 'raises %s: %s' % (type(e).__name__, e)
         return {'code': code,
-                'model': ctx['drv'].ask('%s %s %s' % (p.get('cmd', 'surfmodel'), p['mnemonic'], ' '.join(repr(float(x)) for x in p['params'])))}
+                'model': ctx['drv'].ask('%s %s %s' % (p.get('cmd', 'surfmodel'), p['mnemonic'], ' '.join(repr(float(x)) for x in list(p.get('tr') or []) + list(p['params']))))}
     return replay_deck(payload, ctx)
